@@ -382,20 +382,45 @@ func (fr *frame) indexIte(x, idx value) (value, bool) {
 	if len(cells) == 0 || len(cells) > 256 {
 		return nil, false
 	}
-	var kind types.BasicKind
-	for j, c := range cells {
-		var k types.BasicKind
-		if s, ok := c.(sv); ok {
-			k = s.K
-		} else if kk, _, ok := kindOf(c); ok {
-			k = kk
-		} else {
+	// element shape: a scalar, or a struct of scalars (e.g. utf8.acceptRanges)
+	nf := 0
+	if st, ok := cells[0].(structure); ok {
+		nf = len(st)
+	}
+	comp := func(c value, f int) (value, bool) {
+		if nf == 0 {
+			return c, true
+		}
+		st, ok := c.(structure)
+		if !ok || len(st) != nf {
 			return nil, false
 		}
-		if j > 0 && k != kind {
-			return nil, false
+		return st[f], true
+	}
+	nfields := nf
+	if nfields == 0 {
+		nfields = 1
+	}
+	kinds := make([]types.BasicKind, nfields)
+	for f := 0; f < nfields; f++ {
+		for j, c := range cells {
+			e, ok := comp(c, f)
+			if !ok {
+				return nil, false
+			}
+			var k types.BasicKind
+			if s, ok := e.(sv); ok {
+				k = s.K
+			} else if kk, _, ok := kindOf(e); ok {
+				k = kk
+			} else {
+				return nil, false
+			}
+			if j > 0 && k != kinds[f] {
+				return nil, false
+			}
+			kinds[f] = k
 		}
-		kind = k
 	}
 	k := toIntV(idx)
 	inr := vAnd(binop(token.LEQ, nil, int(0), k), binop(token.LSS, nil, k, int(len(cells))))
@@ -407,14 +432,39 @@ func (fr *frame) indexIte(x, idx value) (value, bool) {
 		return cells[k.(int)], true
 	}
 	tt := ks.T.tt
-	w, _ := kindInfo(kind)
-	acc, _ := lift(tt, cells[len(cells)-1])
-	_ = w
-	for j := len(cells) - 2; j >= 0; j-- {
-		cj, _ := lift(tt, cells[j])
-		acc = tt.Ite(tt.Eq(ks.T, tt.Const(64, uint64(j))), cj, acc)
+	out := make(structure, nfields)
+	for f := 0; f < nfields; f++ {
+		// runs of equal consecutive values become one range test each
+		type run struct {
+			end int
+			t   *Term
+		}
+		var runs []run
+		for j := 0; j < len(cells); j++ {
+			e, _ := comp(cells[j], f)
+			cj, _ := lift(tt, e)
+			if n := len(runs); n > 0 && runs[n-1].t == cj {
+				runs[n-1].end = j
+			} else {
+				runs = append(runs, run{j, cj})
+			}
+		}
+		acc := runs[len(runs)-1].t
+		for j := len(runs) - 2; j >= 0; j-- {
+			var c *Term
+			if j > 0 && runs[j].end == runs[j-1].end+1 {
+				c = tt.Eq(ks.T, tt.Const(64, uint64(runs[j].end)))
+			} else {
+				c = tt.App("bvule", 0, ks.T, tt.Const(64, uint64(runs[j].end)))
+			}
+			acc = tt.Ite(c, runs[j].t, acc)
+		}
+		out[f] = norm(acc, kinds[f])
 	}
-	return norm(acc, kind), true
+	if nf == 0 {
+		return out[0], true
+	}
+	return out, true
 }
 
 // rtErr builds a runtime.Error-like value for target-level run-time panics.
